@@ -34,7 +34,7 @@ import (
 
 func init() {
 	areas["grpcgun"] = area{
-		pkgPath:   "github.com/yandex/pandora/components/guns/grpc",
+		pkgPath:   "github.com/yandex/pandora/lib/verifhook", // a leaf package (cheap); the packages read are loaded together below
 		module:    "GrpcGun",
 		namespace: "Pandora.Gen.GrpcGun",
 		imports:   []string{"Pandora.Model.C20Ns"},
@@ -351,6 +351,23 @@ func ggTimeoutShape(p *packages.Package, fn *ast.FuncDecl) (res ggTimeout, ctxCh
 
 func ggQuote(s string) string { return strconv.Quote(s) }
 
+// ggLoadMany loads several packages in one go/packages call (one shared dependency graph).
+func ggLoadMany(paths ...string) map[string]*packages.Package {
+	cfg := &packages.Config{Mode: packages.NeedName | packages.NeedSyntax | packages.NeedTypes | packages.NeedTypesInfo |
+		packages.NeedFiles | packages.NeedImports | packages.NeedDeps, Dir: repo, BuildFlags: []string{"-tags=verif"}}
+	pkgs, err := packages.Load(cfg, paths...)
+	out := map[string]*packages.Package{}
+	if err != nil {
+		return out
+	}
+	for _, p := range pkgs {
+		if len(p.Errors) == 0 {
+			out[p.PkgPath] = p
+		}
+	}
+	return out
+}
+
 func ggTagTable(st *types.Struct, key string) [][2]string {
 	var out [][2]string
 	for i := 0; i < st.NumFields(); i++ {
@@ -383,11 +400,17 @@ func ggStruct(p *packages.Package, name string) *types.Struct {
 
 func grpcGunExtra(t *tr) string {
 	var b strings.Builder
-	gp := t.pkg
-	sp := load("github.com/yandex/pandora/components/guns/grpc/scenario")
-	ap := load("github.com/yandex/pandora/components/providers/grpc")
-	jp := load("github.com/yandex/pandora/components/providers/grpc/grpcjson")
-	ep := load("github.com/yandex/pandora/examples/grpc/server")
+	many := ggLoadMany("github.com/yandex/pandora/components/providers/grpc", "github.com/yandex/pandora/components/guns/grpc", "github.com/yandex/pandora/components/guns/grpc/scenario",
+		"github.com/yandex/pandora/components/providers/grpc/grpcjson", "github.com/yandex/pandora/examples/grpc/server")
+	ap := many["github.com/yandex/pandora/components/providers/grpc"]
+	gp := many["github.com/yandex/pandora/components/guns/grpc"]
+	sp := many["github.com/yandex/pandora/components/guns/grpc/scenario"]
+	jp := many["github.com/yandex/pandora/components/providers/grpc/grpcjson"]
+	ep := many["github.com/yandex/pandora/examples/grpc/server"]
+	if ap == nil || gp == nil || sp == nil || jp == nil || ep == nil {
+		t.errs = append(t.errs, "grpcgun: could not load the gun / provider / example server packages")
+		return ""
+	}
 
 	emitTimeout := func(prefix string, p *packages.Package, fn *ast.FuncDecl, what string) {
 		res, chain := ggTimeoutShape(p, fn)
@@ -658,6 +681,39 @@ func grpcGunExtra(t *tr) string {
 		}
 	}
 	b.WriteString("/-- how `grpcjson.decodeAmmo` represents the numbers of a payload (`json.Number` keeps the literal as written;\n`float64` rounds integers above 2^53) -/\ndef payloadNumbers : String := " + ggQuote(numbers) + "\n\n")
+
+	// ---- ConvertGrpcStatus: what OK and InvalidArgument (the example service's two replies) are reported as
+	if cs := findFunc(gp, "ConvertGrpcStatus"); cs != nil {
+		got := map[string]string{}
+		ast.Inspect(cs.Body, func(x ast.Node) bool {
+			cc, ok := x.(*ast.CaseClause)
+			if !ok || len(cc.Body) != 1 {
+				return true
+			}
+			r, ok := cc.Body[0].(*ast.ReturnStmt)
+			if !ok || len(r.Results) != 1 {
+				return true
+			}
+			tv := gp.TypesInfo.Types[r.Results[0]]
+			if tv.Value == nil {
+				return true
+			}
+			for _, l := range cc.List {
+				got[ggSrc(gp, l)] = constant.ToInt(tv.Value).ExactString()
+			}
+			return true
+		})
+		for _, c := range [][2]string{{"codes.OK", "statusOk"}, {"codes.InvalidArgument", "statusInvalidArgument"}} {
+			v, ok := got[c[0]]
+			if !ok {
+				t.errs = append(t.errs, "ConvertGrpcStatus: no `case "+c[0]+": return <const>`")
+				v = "0"
+			}
+			b.WriteString(fmt.Sprintf("/-- `ConvertGrpcStatus`: the code reported for `%s` -/\ndef %s : Nat := %s\n\n", c[0], c[1], v))
+		}
+	} else {
+		t.errs = append(t.errs, "ConvertGrpcStatus not found")
+	}
 
 	// ---- the example service
 	svcName := "unrecognised"
